@@ -220,6 +220,7 @@ func runOnce(c *caseT, o runOpts, preflight bool) (out runOut) {
 	})
 	if o.api && !out.over && !out.bound && c.Root > 0 {
 		t.quiet = true
+		t.ev = nil // the events are in out.events; the API runs are quiet and must not hit the event budget
 		out.api = apiCall(c, ps, content)
 	}
 	return
@@ -330,7 +331,7 @@ func parseReplay(a args) {
 			trace.put(e)
 		}
 		events += len(o.events)
-		if o.api != nil {
+		if o.api != nil && o.api["skipped"] == nil {
 			trace.put(o.api)
 		}
 		for _, m := range o.mutations {
